@@ -94,7 +94,19 @@ for _p, _r in {
     'C14': 'interleavings of concurrent processes: sequential contract-based VCs cannot quantify over schedules and no '
            'concurrency logic/verifier is available (DESIGN.md section 5, C14)',
     'C17': 'check not built yet',
-    'C19': 'check not built yet',
     'C20': 'check not built yet',
 }.items():
     NA[_p] = _r
+
+TECH_B = ('bounded stand-in for contract verification: deal contracts on sidecar wrappers of the real functions, '
+          'checked at run time on an exhaustive enumeration of a stated small scope (16 processes); oracle = CPython itself')
+
+bounded('C19',
+        'Bounded (not a proof): for every callable shape and call form of the stated scope, isvalid/validate agree with '
+        'what CPython\'s binder does when a side-effect-free stub of the same shape is actually called, and never enter '
+        'the callable. Values are irrelevant to binding, so the enumeration is complete for its scope (quick: ~25k pairs, '
+        'thorough: ~430k pairs).',
+        'DESIGN.md 5 C19, 3.8',
+        'bounded scope (shapes with <=3 positional-or-keyword and <=2 keyword-only parameters, partials fixing <=2 positionals '
+        'and/or one keyword, <=4 positionals and <=3 keywords per call); no symbolic-signature proof was attempted (DESIGN.md 2).',
+        TECH_B)
